@@ -63,6 +63,10 @@ def install():
         before = _flags(self)
         ret = orig_reset(self, *a, **kw)
         after = _flags(self)
+        if kw.get('silent'):
+            # a display-only proxy the data store builds from DB history
+            # for the n-window: not a task of the pool
+            return ret
         if before != after:
             _emit('STATE', id=self.identity, before=before, after=after,
                   forced=bool(kw.get('forced', False)),
